@@ -19,12 +19,16 @@ RULE = ("type trees (depth <=3 quick / <=5 thorough) of List(item; brackets [] o
         "(then ParsingError is expected); rendering with generated blanks, newlines, comments and multi-line comments; the last "
         "field optionally at the end of 1-3 levels of ordinary productions, productions declared top-down / bottom-up / shuffled. "
         "Non-trivial = depth >=2 or a non-default option or a container of length >=3; distinct by (schema, data)."
-        " Also: texts given as str / list / tuple / iterator / generator / file object / dict keys view; a fragment parse with a start-symbol override before the examined parse.")
+        " Also: texts given as str / list / tuple / iterator / generator / file object / dict keys view; a fragment parse with a start-symbol override before the examined parse."
+        " Part seq_followers: E -> (SEQ, TAIL, ';') where SEQ = ProdSequence of 1-4 terminals and multi-token elements with pairwise different "
+        "first tokens and TAIL keeps the first k>=1 tokens of one multi-token element and then departs from it (the parser enters the element, "
+        "fails inside it and gives the sequence back); 0-5 elements per text; non-trivial = at least one element in some text.")
 ASSUMPTIONS = [
     "documented preconditions respected: final delimiter needs brackets+delimiter, optional needs brackets, delimiter-less lists need non-nullable items",
     "uniquely decodable by construction: bracket-less lists only as a whole field (in front of ';') and never directly nested; a list of nullable items that ends with an empty item is rendered with the final delimiter when that is allowed; a lone empty item is never rendered between brackets",
     "sequence elements are terminals or parenthesised groups '(' SEQ ')' (of a second sequence or of the same one, recursively); of a group element only its tokens in order are judged, not the shape of its sub-tree; sequences (which may be empty) are not used as items of lists that allow a final delimiter",
     "bracket-less maps only as whole fields; keep_symbols on item symbols are not generated",
+    "seq_followers: the follower is no element prefix-complete (it differs from the element body at a position inside it) and element first tokens are pairwise different, so every text has exactly one reading",
     "rollback variant: the record may have two alternatives (fields ';'... '+' | LEAD fields ';'... 'do') that share a parse-table cell",
 ]
 
@@ -707,11 +711,141 @@ def st_case(draw, maxdepth=3):
                 lambda d: st.lists(st.integers(0, 9), min_size=7, max_size=7) if d == "shuffle" else st.just(d)))}
 
 
+# ---------------------------------------------------------------------------
+# sequences whose follower begins like one of their multi-token elements
+# ---------------------------------------------------------------------------
+
+FOLLOW_TERMS = ["WORD", "NUM", "+", ",", "(", ")", "[", "]", "{", "}", ":", "IF", "DO"]
+
+
+def evaluate_follow(case):
+    """E -> (SEQ, TAIL, ';') [+ rollback alternative]; SEQ = ProdSequence(terminals and multi-token elements with pairwise
+    different first tokens); TAIL begins with the first token of a multi-token element and departs from its body at a
+    later position, so the parser enters the element, fails inside it and has to give the sequence back unharmed."""
+    import ak.llparser as L
+    tokcfg, _names = gk.tok_config(True, True)
+    elems = case["elems"]          # [terminal | [terminal, ...]]
+    tail = case["tail"]
+    prods = {}
+    names = []
+    for i, e in enumerate(elems):
+        if isinstance(e, list):
+            n = "ELM%d" % i
+            prods[n] = [tuple(e)]
+            names.append(n)
+        else:
+            names.append(e)
+    try:
+        top = {"E": [("S", "TAIL", ";")], "TAIL": [tuple(tail)], "S": L.ProdSequence(*names)}
+        if case.get("lead"):
+            top["E"] = [("S", "TAIL", ";", "END_KW"), ("S", "TAIL", ";")]
+        top.update(prods)
+        if case.get("bottomup"):
+            top = {k: top[k] for k in reversed(list(top))}
+        parser = L.LLParser(gk.TOKENIZER, productions=top, start_symbol_name="E", **tokcfg)
+    except Exception as e:   # noqa
+        return Outcome(False, ["constructor_raises"], [("constructor_raises_" + type(e).__name__,
+                                                        f"follow case={case!r}: {str(e)[-300:]}")])
+    f = []
+    classes = {"seq_follower_starts_like_an_element"}
+    evals = 0
+    for inst in case["instances"]:
+        toks = []
+        exp = []
+        for ei, lx in inst["items"]:
+            e = elems[ei % len(elems)]
+            if isinstance(e, list):
+                start = len(toks)
+                for k, t in enumerate(e):
+                    toks.append((t, lex_of(t, lx + k)))
+                exp.append([names[ei % len(elems)], [v for _, v in toks[start:]]])
+            else:
+                toks.append((e, lex_of(e, lx)))
+                exp.append([e, [toks[-1][1]]])
+        for k, t in enumerate(tail):
+            toks.append((t, lex_of(t, inst["tail_lex"] + k)))
+        toks.append((";", ";"))
+        seps = (inst["seps"] + [""] * (len(toks) + 1))[:len(toks) + 1]
+        for i in range(1, len(toks)):
+            if seps[i] == "" and gk.need_space(toks[i - 1][1], toks[i][1]):
+                seps[i] = " "
+        text, _pos = gk.render(toks, seps)
+        kind, res, _st = parse_guarded(L, parser, text, len(toks))
+        evals += 1
+        ctx = f"elements={elems!r} follower={tail!r} text={text!r}"
+        if kind == "parsing_error":
+            f.append(("valid_text_rejected", f"{ctx}: {str(res)[:200]}"))
+            continue
+        if kind != "tree":
+            f.append(("parse_" + kind + ("_" + type(res).__name__ if kind == "exception" else ""), f"{ctx}: {res}"))
+            continue
+        vals = res.value
+        if not isinstance(vals, list) or len(vals) != 3 or getattr(vals[0], "name", None) != "S":
+            f.append(("root_shape_unexpected", f"{ctx}: {res!r}"))
+            continue
+        seq = vals[0].value
+        if not isinstance(seq, list):
+            f.append(("seq_not_a_list", f"{ctx}: {seq!r}"))
+            continue
+        got = []
+        for el in seq:
+            leaves = []
+
+            def walk(x):
+                if isinstance(getattr(x, "value", None), list):
+                    for c in x.value:
+                        walk(c)
+                elif x is not None:
+                    leaves.append(getattr(x, "value", x))
+            walk(el)
+            got.append([getattr(el, "name", None), leaves])
+        if got != exp:
+            why = "extra_element" if len(got) > len(exp) else "missing_element" if len(got) < len(exp) else "wrong_items"
+            f.append(("seq_" + why, f"{ctx}: sequence gives {got!r}, matched elements are {exp!r}"))
+        if any(isinstance(elems[ei % len(elems)], list) for ei, _ in inst["items"]):
+            classes.add("multi_token_elements_matched")
+        if len(exp) >= 2:
+            classes.add("follower_after_two_or_more_elements")
+        if not exp:
+            classes.add("follower_after_empty_sequence")
+    if case.get("lead"):
+        classes.add("rollback_alternative")
+    return Outcome(any(len(i["items"]) >= 1 for i in case["instances"]), sorted(classes), f[:4], evals=evals)
+
+
+@st.composite
+def st_follow_case(draw):
+    firsts = draw(st.lists(st.sampled_from(FOLLOW_TERMS), min_size=1, max_size=4, unique=True))
+    elems = []
+    multi = []
+    for i, t in enumerate(firsts):
+        if i == 0 or draw(st.booleans()):
+            body = [t] + draw(st.lists(st.sampled_from(FOLLOW_TERMS), min_size=1, max_size=3))
+            elems.append(body)
+            multi.append(body)
+        else:
+            elems.append(t)
+    base = draw(st.sampled_from(multi))
+    # the follower keeps k >= 1 tokens of the element body and then departs from it
+    k = draw(st.integers(1, len(base) - 1))
+    other = draw(st.sampled_from([t for t in FOLLOW_TERMS if t != base[k]]))
+    tail = base[:k] + [other] + draw(st.lists(st.sampled_from(FOLLOW_TERMS), max_size=2))
+    instances = []
+    for _ in range(draw(st.integers(2, 4))):
+        instances.append({"items": draw(st.lists(st.tuples(st.integers(0, 7), st.integers(0, 7)), max_size=5)),
+                          "tail_lex": draw(st.integers(0, 7)),
+                          "seps": draw(st.lists(gk.st_sep(), min_size=0, max_size=24))})
+    return {"elems": elems, "tail": tail, "instances": instances, "lead": draw(st.booleans()),
+            "bottomup": draw(st.booleans())}
+
+
 def parts(tier):
     if tier == "quick":
-        return [Part("schemas", evaluate, strategy=st_case, examples=8000)]
+        return [Part("schemas", evaluate, strategy=st_case, examples=8000),
+                Part("seq_followers", evaluate_follow, strategy=st_follow_case, examples=1500)]
     return [Part("schemas", evaluate, strategy=st_case, examples=100000),
-            Part("schemas_deep", evaluate, strategy=lambda: st_case(maxdepth=5), examples=40000)]
+            Part("schemas_deep", evaluate, strategy=lambda: st_case(maxdepth=5), examples=40000),
+            Part("seq_followers", evaluate_follow, strategy=st_follow_case, examples=40000)]
 
 
 TECHNIQUE = "schema-driven property-based testing (Hypothesis): random container types -> grammar with ListProds/MapProds/ProdSequence; generated data rendered to text; cleaned parse result compared with the denotation computed from the data"
